@@ -64,7 +64,8 @@ STRAND_PROP = {
     "percent": "table_percentages", "percent_moe": "table_proportion_moes",
     "percent_stddev": "table_proportion_stddevs", "percent_stderr": "table_proportion_stderrs",
     "population": "population_counts", "population_moe": "population_counts_moe",
-    "share_sum": "share_sum", "sum": "sums",
+    "share_sum": "share_sum", "sum": "sums", "stddev": "stddev",
+    "valid_count_unweighted": "unweighted_counts", "valid_count_weighted": "counts",
 }
 
 SHAPES = [("cat", "cat")] * 4 + [("cat", "mr"), ("mr", "cat"), ("mr", "mr"), ("cai", "cac"),
